@@ -491,9 +491,9 @@ def handover(ctx, rule):
         return
     nb, call = news[0]
     a = [q.shape(x) for x in call.args]
-    ctx.check(q.wild("Option::map(arg1.file,closure:*)", a[0]), rule, fn, "new#0:file", "file comes from the document's file", detail=a[0])
+    ctx.check(q.wild("Option::map(arg1.file,closure:*)", a[0]) or q.wild("Option::map(arg1.file,fn:*)", a[0]), rule, fn, "new#0:file", "file comes from the document's file", detail=a[0])
     fc = closure_body(ctx, call.args[0])
-    fsh = sorted(sh for sh, _, _ in q.def_shapes(fc, 0, {})) if fc is not None else []
+    fsh = sorted(sh for sh, _, _ in q.def_shapes(fc, 0, {q.first_param(fc): "arg2"})) if fc is not None else []
     ctx.check(fsh == ["'<invalid>'", "string(arg2)"], rule, fn, "new#0:file-text", "a string file name is kept as it is (anything else reads as '<invalid>')", detail=str(fsh))
     aggs = token_aggs(b)
     tok_vec = None
@@ -501,7 +501,7 @@ def handover(ctx, rule):
         if q.shape(q.arg_expr(b, t, 1)).startswith("RawToken{"):
             tok_vec = q.root_local(q.arg_expr(b, t, 0))
     ctx.check(tok_vec is not None and q.root_local(call.args[1]) == tok_vec, rule, fn, "new#1:tokens", "the token vector passed is the one the segments were pushed to")
-    ctx.check(q.wild("Iterator::collect(Iterator::map(IntoIterator::into_iter(Option::unwrap_or_default(arg1.names)),closure:*))", a[2]), rule, fn, "new#2:names", "names come from the document's names", detail=a[2])
+    ctx.check(q.wild("Iterator::collect(Iterator::map(IntoIterator::into_iter(Option::unwrap_or_default(arg1.names)),closure:*))", a[2]) or q.wild("Iterator::collect(Iterator::map(IntoIterator::into_iter(Option::unwrap_or_default(arg1.names)),fn:*))", a[2]), rule, fn, "new#2:names", "names come from the document's names", detail=a[2])
     ctx.check(a[3] == "Iterator::collect(Iterator::map(Iterator::map(IntoIterator::into_iter(Option::unwrap_or_default(arg1.sources)),fn:Option::unwrap_or_default),fn:Into::into))", rule, fn, "new#3:sources",
               "sources come from the document's sources, null entries read as empty names", detail=a[3])
     ctx.check(a[4] == "Option::map(arg1.sources_content,\u03bb(Iterator::collect(Iterator::map(IntoIterator::into_iter(p1),\u03bb(Option::map(p1,fn:Into::into))))))", rule, fn, "new#4:contents", "contents come from sourcesContent", detail=a[4])
@@ -521,23 +521,36 @@ def handover(ctx, rule):
         ctx.check(len(fe[2]) == 1 and q.wild("SourceMap::add_to_ignore_list(*,arg2)", fe[2][0]) and bool(oks) and all(b.dominates(fe[0], o) for o in oks), rule, fn, "ignore_list",
                   "every ignoreList entry is applied (for_each over the list)", detail=str(fe[2]))
     else:
-        ctx.check(len(ig) == 1 and ig[0][1] == "SourceMap::add_to_ignore_list(sm,try(Iterator::next(var:IntoIter<u32>)))" and len(it) == 1, rule, fn, "ignore_list", "every ignoreList entry is applied", detail=str(ig))
+        # the loop's iterator: over the list inside the Option, however the Option is opened
+        SRC = ("IntoIterator::into_iter(try(arg1.ignore_list))", "IntoIterator::into_iter(Iterator::flatten(IntoIterator::into_iter(arg1.ignore_list)))",
+               "IntoIterator::into_iter(Iterator::flatten(Option::into_iter(arg1.ignore_list)))", "IntoIterator::into_iter(Option::unwrap_or_default(arg1.ignore_list))")
+        itl = [l for l in range(len(b.locals)) if any(sh in SRC for sh, _, _ in q.def_shapes(b, l, roles))]
+        r2 = dict(roles)
+        for l in itl:
+            r2[l] = "IGN"
+        ig2 = [q.shape(b.expr_of_call(t), r2) for bi, t in q.calls_to(b, "types::SourceMap::add_to_ignore_list")]
+        ctx.check(ig2 == ["SourceMap::add_to_ignore_list(sm,try(Iterator::next(IGN)))"] and bool(itl), rule, fn, "ignore_list", "every ignoreList entry is applied", detail=str(ig2))
     okv = [q.shape(b.expr_of_rvalue(s["rv"]), roles) for bi, si, s, it2 in b.locations() if not it2 and s["k"] == "assign" and s["place"]["l"] == 0 and s["rv"]["k"] == "agg" and s["rv"].get("variant") == "Ok"]
     ctx.check(okv == ["Result::Ok{0:sm}"], rule, fn, "returns-map", "that map is returned", detail=str(okv))
     # lenient names (C02.R7)
     c1 = closure_body(ctx, call.args[2])
     if ctx.check(c1 is not None, rule, fn, "names-closure", "the names conversion closure exists"):
-        sw = [t for bi, t in [(i, c1.blocks[i]["term"]) for i in range(len(c1.blocks)) if not c1.blocks[i]["cleanup"]] if t["k"] == "switch" and q.shape(c1.expr_of_operand(t["discr"])) == "discr(arg2)"]
+        P1 = {q.first_param(c1): "arg2"}
+        sw = [t for bi, t in [(i, c1.blocks[i]["term"]) for i in range(len(c1.blocks)) if not c1.blocks[i]["cleanup"]] if t["k"] == "switch" and q.shape(c1.expr_of_operand(t["discr"]), P1) == "discr(arg2)"]
         adt = None
         vals = sorted(v for v, _ in sw[0]["arms"]) if sw else []
         # serde_json::Value: Null=0 Bool=1 Number=2 String=3 Array=4 Object=5
         ctx.check(vals == [2, 3], rule, c1.path, "arms:number,string", "numbers and strings are converted, everything else reads as empty", detail=str(vals))
-        calls = [q.shape(c1.expr_of_call(t)) for bi, t in c1.calls()]
+        calls = [q.shape(c1.expr_of_call(t), P1) for bi, t in c1.calls()]
         ctx.check(any(c == "ToString::to_string(number(arg2))" for c in calls), rule, c1.path, "number:to_string", "numeric names read as their decimal text", detail=str(calls)[:200])
 
 
 def closure_body(ctx, e):
-    """Body of the first closure mentioned in an expression (found at its use, not by its number)."""
+    """Body of the first closure - or crate-local function used as a value - mentioned in an
+    expression (found at its use, not by its number or name)."""
+    b = q.callable_body(e)
+    if b is not None:
+        return b
     for x in e.walk():
         if isinstance(x, Agg) and x.ak == "closure":
             return ctx.facts.body(x.closure, required=False)
